@@ -1273,12 +1273,9 @@ func TestVerifC19(t *testing.T) {
 			continue
 		}
 		seenInTable[m.Name] = true
-		if !exhaustive {
-			continue // effective level is only meaningful after the full matrix
-		}
 		for _, lv := range []struct{ what, level string }{{"declared perm tag", m.Tag}, {"lowest credential class that reached it", effective[m.Name]}} {
 			if lv.level == "unreachable" {
-				continue
+				continue // (also the case when the deadline cut the matrix short)
 			}
 			if vLevelIdx(lv.level) < vLevelIdx(p.Min) {
 				rep.Violation(fmt.Sprintf("%s/policy/under-protected/%s/needs=%s/has=%s", vPropID, m.Name, p.Min, lv.level),
